@@ -786,6 +786,15 @@ def get_placeholder_value(
                 return -np.ones(agent_space.shape, dtype=agent_space.dtype)
 
 
+def _format_action(action: Any, action_space: spaces.Space) -> np.ndarray:
+    """Gives the action of one sub-environment the shape its action space declares
+    (e.g. a ``Box`` of shape ``(1,)`` must not be squeezed to a scalar)."""
+    action = np.array(action)
+    if isinstance(action_space, spaces.Box):
+        return action.reshape(action_space.shape)
+    return action.squeeze()
+
+
 def process_transition(
     transitions: Tuple[Any],
     obs_spaces: Dict[str, spaces.Space],
@@ -919,7 +928,7 @@ def _async_worker(
             elif command == "step":
                 data = {
                     possible_agent: (
-                        np.array(data[idx]).squeeze()
+                        _format_action(data[idx], env.action_space(possible_agent))
                         if not isinstance(data[idx], int)
                         else data[idx]
                     )
